@@ -387,4 +387,10 @@ def wFitted : Fitted (Int × Int) :=
 /-- rows 0 and 1 of the training frame: their labels are all `≤ 1` -/
 def wSub : Frame (Int × Int) := wTrain.selectRows [0, 1]
 
+/-- a training frame whose numerical column is called like a generated column (`"c_0"` next to the
+    categorical column `"c"`), binary labels -/
+def wCollide : Frame (Int × Int) :=
+  { numNames := ["c_0"], catNames := ["c"],
+    rows := [⟨[(1, 1)], [0]⟩, ⟨[(2, 1)], [0]⟩, ⟨[(3, 1)], [1]⟩], y := some (.ints [0, 1, 1]) }
+
 end TFVerif.CatToNum
